@@ -43,6 +43,7 @@ import (
 	"sort"
 	"strings"
 	"sync"
+	"sync/atomic"
 	"testing"
 	"time"
 
@@ -103,6 +104,8 @@ func (l *c07LastLog) get() string {
 var c07LogSink = &c07LastLog{}
 
 var c07ObserveOnce sync.Once
+
+var c07PanicsObserved int32
 
 var c07Log = func() logging.Logger {
 	l := logging.NewLogger()
@@ -1164,7 +1167,9 @@ func c07Stream(c *kit.Ctx, stream uint64, idx int, nEvents int, visit func(m *c0
 			// the uncrashed machine itself refuses the stream (contract checker / assumption): not this property
 			c.Count("streams_ended_by_primary_panic", 1)
 			c.Count("primary_panic: "+strings.SplitN(pan, ":", 2)[0], 1)
-			c.Observation("uncrashed machine panicked (stream c.Rand(%d,%d), event %d %s): %s", stream, idx, i, desc, pan)
+			if atomic.AddInt32(&c07PanicsObserved, 1) <= 3 {
+				c.Observation("uncrashed machine panicked (stream c.Rand(%d,%d), event %d %s): %s", stream, idx, i, desc, pan)
+			}
 			return
 		}
 		c.Count("events", 1)
@@ -1192,6 +1197,7 @@ func TestVerifC07Codec(t *testing.T) {
 	c.Rule("states = (router, player, pending actions) reached along PRNG-driven protocol-valid event streams (7 voters, 2 of them possibly equivocating, proposal-votes with payloads, pipelined payloads, bundles, timeouts, fast timeouts, round interruptions, checkpoints, verification replies, own votes looped back) into a real rootRouter+player; checked at every persist point (an attest action pending) and at PRNG-chosen other points: bytewise idempotence over msgp/reflection codec pairs and survival of every field outside the not-persisted list; distinct = distinct state-shape classes (period, step, napping, numbers of round/period/step routers, votes, equivocators, assemblers, pipelined payloads, pending tails, pending actions)")
 	c.Assume("votes are struct-level (chosen weights, filler signatures): player and router do not verify cryptography; the not-persisted list c07NotPersisted was established on the unchanged tree")
 	nstreams := c.N(24, 1000)
+	var sampled, sampledLate int32
 	c07Parallel(nstreams, func(s int) {
 		if c.Violations() > 20 {
 			return
@@ -1205,7 +1211,7 @@ func TestVerifC07Codec(t *testing.T) {
 			c07CountShape(c, m, acts)
 			c.Distinct(m.shapeKey(acts))
 			c07CheckCodec(c, m, acts, map[string]any{"stream": s, "event_index": i, "replay": fmt.Sprintf("VERIF_SEED=%d: stream %d is generated from c.Rand(70,%d)", c.Seed, s, s), "last_events": append([]string(nil), trace...)})
-			if s < 2 && i == 300 {
+			if atomic.AddInt32(&sampled, 1) <= 4 || (i > 300 && atomic.AddInt32(&sampledLate, 1) <= 2) {
 				sh := m.shape()
 				c.Sample(map[string]any{"stream": s, "event": i, "round": uint64(m.p.Round), "period": uint64(m.p.Period), "step": uint64(m.p.Step),
 					"round_routers": sh.rounds, "period_routers": sh.periods, "step_trackers": sh.steps, "votes": sh.votes, "equivocators": sh.equivocators, "bytes": len(m.encode(acts, false))})
@@ -1245,6 +1251,7 @@ func TestVerifC07Behaviour(t *testing.T) {
 	c.Rule("same streams as part codec (other PRNG stream); at persist points and PRNG-chosen points the state is encoded and restored twice (msgp decode, reflection decode); the restored machines then receive the next 5-80 events of the uncrashed machine's stream; after every event actions (type, ComparableStr, encoding) and the encoded state must equal the uncrashed machine's; distinct = distinct state-shape classes at the snapshot")
 	c.Assume("while a comparison runs the stream has no proposal-vote whose handling depends on the deliberately unpersisted late-credential state, and no verification reply to a request older than the snapshot; streams stay below 40 rounds (credential history never full)")
 	nstreams := c.N(50, 2000)
+	var sampled, sampledRich int32
 	c07Parallel(nstreams, func(s int) {
 		if c.Violations() > 20 {
 			return
@@ -1325,14 +1332,15 @@ func TestVerifC07Behaviour(t *testing.T) {
 					cmp.replicas = append(cmp.replicas, c07Replica{name: fmt.Sprintf("machine restored with decode(reflect=%v)", dec), m: rm})
 				}
 				cur = cmp
+				sh0 := m.shape()
 				c.Count("snapshots", 1)
 				if persistent(acts) {
 					c.Count("snapshots_at_persist_points", 1)
 				}
 				c07CountShape(c, m, acts)
 				c.Distinct(m.shapeKey(acts))
-				if s < 3 && c.Counter("snapshots") <= 3 {
-					sh := m.shape()
+				if atomic.AddInt32(&sampled, 1) <= 3 || (m.p.Period > 0 && sh0.equivocators > 0 && atomic.AddInt32(&sampledRich, 1) <= 2) {
+					sh := sh0
 					c.Sample(map[string]any{"stream": s, "snapshot_at_event": i, "round": uint64(m.p.Round), "period": uint64(m.p.Period), "step": uint64(m.p.Step),
 						"step_trackers": sh.steps, "votes": sh.votes, "equivocators": sh.equivocators, "continuation_events": cmp.remaining})
 				}
